@@ -79,146 +79,8 @@ theorem complete_piece_untouched (act : Swarm.Action) (hact : SepSwarmAction crc
   have hs' := swarm_step_ok hpl hs act hact
   have hg' := (hs' a p' hp').1
   refine ⟨?_, complete_piece_bytes hg i hc⟩
-  -- the piece is still complete at a: every way `step` rewrites peer a applies a torrent action or none
   have hmono : p'.tor.pieces[i]? = some PStatus.complete := by
-    have key : p'.tor = p.tor ∨ ∃ ta, p'.tor = AgentTorrent.step crc p.tor ta := by
-      cases act with
-      | connect x y =>
-        simp only [Swarm.step] at hp'
-        cases hx : (Swarm.run crc (initSwarm cfg (MetaInfo.ofBlob crc pl blob) blob seeders agents) sched).peers[x]? with
-        | none => rw [hx] at hp'; simp only at hp'; rw [hp] at hp'; cases hp'; exact Or.inl rfl
-        | some px =>
-          cases hy : (Swarm.run crc (initSwarm cfg (MetaInfo.ofBlob crc pl blob) blob seeders agents) sched).peers[y]? with
-          | none => rw [hx, hy] at hp'; simp only at hp'; rw [hp] at hp'; cases hp'; exact Or.inl rfl
-          | some py =>
-            rw [hx, hy] at hp'; simp only at hp'
-            split at hp'
-            · simp only [setPeer] at hp'
-              rw [List.getElem?_set] at hp'
-              split at hp'
-              · split at hp'
-                · cases hp'; rename_i h1 _; subst h1; rw [hy] at hp; cases hp; exact Or.inl rfl
-                · cases hp'
-              · rw [List.getElem?_set] at hp'
-                split at hp'
-                · split at hp'
-                  · cases hp'; rename_i h1 _; subst h1; rw [hx] at hp; cases hp; exact Or.inl rfl
-                  · cases hp'
-                · rw [hp] at hp'; cases hp'; exact Or.inl rfl
-            · rw [hp] at hp'; cases hp'; exact Or.inl rfl
-      | disconnect x y =>
-        simp only [Swarm.step] at hp'
-        cases hx : (Swarm.run crc (initSwarm cfg (MetaInfo.ofBlob crc pl blob) blob seeders agents) sched).peers[x]? with
-        | none => rw [hx] at hp'; simp only at hp'; rw [hp] at hp'; cases hp'; exact Or.inl rfl
-        | some px =>
-          cases hy : (Swarm.run crc (initSwarm cfg (MetaInfo.ofBlob crc pl blob) blob seeders agents) sched).peers[y]? with
-          | none => rw [hx, hy] at hp'; simp only at hp'; rw [hp] at hp'; cases hp'; exact Or.inl rfl
-          | some py =>
-            rw [hx, hy] at hp'; simp only at hp'
-            split at hp'
-            · simp only [setPeer] at hp'
-              rw [List.getElem?_set] at hp'
-              split at hp'
-              · split at hp'
-                · cases hp'; rename_i h1 _; subst h1; rw [hy] at hp; cases hp; exact Or.inl rfl
-                · cases hp'
-              · rw [List.getElem?_set] at hp'
-                split at hp'
-                · split at hp'
-                  · cases hp'; rename_i h1 _; subst h1; rw [hx] at hp; cases hp; exact Or.inl rfl
-                  · cases hp'
-                · rw [hp] at hp'; cases hp'; exact Or.inl rfl
-            · rw [hp] at hp'; cases hp'; exact Or.inl rfl
-      | leave x =>
-        simp only [Swarm.step] at hp'
-        cases hx : (Swarm.run crc (initSwarm cfg (MetaInfo.ofBlob crc pl blob) blob seeders agents) sched).peers[x]? with
-        | none => rw [hx] at hp'; simp only at hp'; rw [hp] at hp'; cases hp'; exact Or.inl rfl
-        | some px =>
-          rw [hx] at hp'; simp only at hp'
-          rw [List.getElem?_set] at hp'
-          split at hp'
-          · split at hp'
-            · cases hp'; rename_i h1 _; subst h1; rw [hx] at hp; cases hp; exact Or.inl rfl
-            · cases hp'
-          · rw [List.getElem?_map, hp] at hp'; cases hp'; exact Or.inl rfl
-      | request x y j =>
-        simp only [Swarm.step] at hp'
-        cases hx : (Swarm.run crc (initSwarm cfg (MetaInfo.ofBlob crc pl blob) blob seeders agents) sched).peers[x]? with
-        | none => rw [hx] at hp'; simp only at hp'; rw [hp] at hp'; cases hp'; exact Or.inl rfl
-        | some px =>
-          cases hy : (Swarm.run crc (initSwarm cfg (MetaInfo.ofBlob crc pl blob) blob seeders agents) sched).peers[y]? with
-          | none => rw [hx, hy] at hp'; simp only at hp'; rw [hp] at hp'; cases hp'; exact Or.inl rfl
-          | some py =>
-            rw [hx, hy] at hp'; simp only at hp'
-            split at hp'
-            · simp only [setPeer] at hp'
-              rw [List.getElem?_set] at hp'
-              split at hp'
-              · split at hp'
-                · cases hp'; rename_i h1 _; subst h1; rw [hx] at hp; cases hp; exact Or.inl rfl
-                · cases hp'
-              · rw [hp] at hp'; cases hp'; exact Or.inl rfl
-            · rw [hp] at hp'; cases hp'; exact Or.inl rfl
-      | deliver x y j g =>
-        simp only [Swarm.step] at hp'
-        cases hx : (Swarm.run crc (initSwarm cfg (MetaInfo.ofBlob crc pl blob) blob seeders agents) sched).peers[x]? with
-        | none => rw [hx] at hp'; simp only at hp'; rw [hp] at hp'; cases hp'; exact Or.inl rfl
-        | some px =>
-          cases hy : (Swarm.run crc (initSwarm cfg (MetaInfo.ofBlob crc pl blob) blob seeders agents) sched).peers[y]? with
-          | none => rw [hx, hy] at hp'; simp only at hp'; rw [hp] at hp'; cases hp'; exact Or.inl rfl
-          | some py =>
-            rw [hx, hy] at hp'; simp only at hp'
-            split at hp'
-            · cases hw : wirePayload py j g with
-              | none =>
-                rw [hw] at hp'; simp only [setPeer] at hp'
-                rw [List.getElem?_set] at hp'
-                split at hp'
-                · split at hp'
-                  · cases hp'; rename_i h1 _; subst h1; rw [hx] at hp; cases hp; exact Or.inl rfl
-                  · cases hp'
-                · rw [hp] at hp'; cases hp'; exact Or.inl rfl
-              | some payload =>
-                rw [hw] at hp'; simp only [setPeer] at hp'
-                rw [List.getElem?_set] at hp'
-                split at hp'
-                · split at hp'
-                  · cases hp'; rename_i h1 _; subst h1; rw [hx] at hp; cases hp
-                    exact Or.inr ⟨.spawn (j : Int) payload, rfl⟩
-                  · cases hp'
-                · rw [hp] at hp'; cases hp'; exact Or.inl rfl
-            · rw [hp] at hp'; cases hp'; exact Or.inl rfl
-      | tstep x tid k =>
-        simp only [Swarm.step] at hp'
-        cases hx : (Swarm.run crc (initSwarm cfg (MetaInfo.ofBlob crc pl blob) blob seeders agents) sched).peers[x]? with
-        | none => rw [hx] at hp'; simp only at hp'; rw [hp] at hp'; cases hp'; exact Or.inl rfl
-        | some px =>
-          rw [hx] at hp'; simp only [setPeer] at hp'
-          rw [List.getElem?_set] at hp'
-          split at hp'
-          · split at hp'
-            · cases hp'; rename_i h1 _; subst h1; rw [hx] at hp; cases hp; exact Or.inr ⟨.step tid k, rfl⟩
-            · cases hp'
-          · rw [hp] at hp'; cases hp'; exact Or.inl rfl
-      | resolve x tid =>
-        simp only [Swarm.step] at hp'
-        cases hx : (Swarm.run crc (initSwarm cfg (MetaInfo.ofBlob crc pl blob) blob seeders agents) sched).peers[x]? with
-        | none => rw [hx] at hp'; simp only at hp'; rw [hp] at hp'; cases hp'; exact Or.inl rfl
-        | some px =>
-          rw [hx] at hp'; simp only at hp'
-          cases hf : px.inflight.find? (·.tid = tid) with
-          | none => rw [hf] at hp'; simp only at hp'; rw [hp] at hp'; cases hp'; exact Or.inl rfl
-          | some d =>
-            cases hr : (px.tor.threads[tid]?).bind (·.result) with
-            | none => rw [hf, hr] at hp'; simp only at hp'; rw [hp] at hp'; cases hp'; exact Or.inl rfl
-            | some r =>
-              rw [hf, hr] at hp'; simp only at hp'
-              cases r <;> simp only [setPeer] at hp' <;> rw [List.getElem?_set] at hp' <;> split at hp' <;>
-                first
-                | (split at hp'
-                   · cases hp'; rename_i h1 _; subst h1; rw [hx] at hp; cases hp; exact Or.inl rfl
-                   · cases hp')
-                | (rw [hp] at hp'; cases hp'; exact Or.inl rfl)
+    have key := peer_tor_step crc _ act a p p' hp hp'
     rcases key with h | ⟨ta, h⟩
     · rw [h]; exact hc
     · rw [h]; exact complete_mono hg ta i hc
